@@ -146,3 +146,25 @@ CHECKS["C13"] = dict(
     assumptions=["random schedules: the ABBA cycle fixed in /repo was hit in about 2% of racing pairs, so 50 repetitions per case give overwhelming detection probability for it; absence of other cycles is not established"],
     units=[unit("props", ["Deadlock"], "C13", wedge_is_violation=True)],
 )
+
+_CFG_GEN = ("rapid-generated configurations rendered to YAML and loaded by the real RunOutlineServer in an executor process: 0..4 services x 1..4 listeners (tcp/udp on 127.0.0.1 and [::1], "
+            "ports from a per-case table of free ports) x 1..6 keys from a universe of 2..8 keys (all four ciphers, duplicated material inside a service under different ids, the same material in several services, "
+            "per-service id aliases), 0..2 legacy ports with 1..4 legacy keys, both formats mixed. ")
+CHECKS["C09"] = dict(
+    level="exploration",
+    rule=_CFG_GEN + "For every (endpoint, key material of the universe) pair the tester connects / sends a datagram encoded with that key and reads the executor's metric events for its own client port: "
+         "authenticated iff the material belongs to the owning service (legacy: that port), attributed to the first id with that material in the service (legacy: any such id on the port); UDP attribution uses the "
+         "local allowed address 192.0.2.2 when present. Non-trivial = >=2 services/legacy ports, or a duplicated material inside a service. Distinct = canonical case JSON.",
+    assumptions=["destination policy keeps probes from relaying: authentication is observed through the metric events", "a configuration that fails on a port another process took is discarded, never reported"],
+    units=[unit("props", ["Config"], "C09", needs=["inpkg-main"])],
+)
+CHECKS["C10"] = dict(
+    level="fault_enumeration",
+    rule=_CFG_GEN + "A case is 1..6 reload attempts after an initial load, each with a fault from {none, file missing, malformed YAML, unknown listener type, hostname address, duplicate listener, "
+         "bad cipher in service i key j, bad cipher in legacy key j, listener j of service i unbindable (the tester holds the port)} with i, j generated, so every stage at which loading can fail is reached, "
+         "including after listeners of the new generation were acquired. After every attempt: loadConfig fails iff a fault was injected, then the probe matrix over the union of all endpoints ever mentioned x all key "
+         "materials: listening <=> in the last loaded configuration, authenticates <=> configured there. After Stop: every endpoint closed and the server's goroutines and sockets back to baseline. "
+         "Non-trivial = a faulted attempt whose failure point lies after >=1 listener of the new generation was acquired, followed by >=1 further attempt. ('unreadable file' is not generated: the tests run as root.)",
+    assumptions=["one executor process per case", "fault 'unreadable file' cannot be produced as root"],
+    units=[unit("props", ["Reload"], "C10", needs=["inpkg-main"])],
+)
